@@ -163,7 +163,8 @@ pub fn edit_strategy() -> BoxedStrategy<Edit> {
 
 /// a template with every `N` replaced by an operand
 pub fn template_strategy() -> BoxedStrategy<String> {
-    let operand = prop_oneof![3 => proptest::sample::select(BOUNDARY_NUMBERS.to_vec()), 1 => proptest::sample::select(OPERANDS.to_vec())];
+    // small in-range numbers are frequent, so that one extreme operand meets otherwise valid ones
+    let operand = prop_oneof![8 => proptest::sample::select(vec!["0", "1", "-1", "2", "3"]), 9 => proptest::sample::select(BOUNDARY_NUMBERS.to_vec()), 3 => proptest::sample::select(OPERANDS.to_vec())];
     (proptest::sample::select(TEMPLATES.to_vec()), proptest::collection::vec(operand, 3))
         .prop_map(|(t, ops)| {
             let mut out = String::new();
